@@ -166,6 +166,21 @@ def block_tables(path):
     return out, bad
 
 
+def check_results_guards(path):
+    """tests of the `if ...: continue` statements directly inside the loop over all_fun in check_results (before the timed block)"""
+    tree = ast.parse(open(path).read())
+    fn = [n for n in ast.walk(tree) if isinstance(n, ast.FunctionDef) and n.name == "check_results"][0]
+    out = []
+    for loop in ast.walk(fn):
+        if isinstance(loop, ast.For) and "all_fun" in ast.unparse(loop.iter) and any(
+                isinstance(w, ast.With) and "time_limit" in ast.unparse(w.items[0].context_expr) for w in ast.walk(loop)):
+            for st in loop.body:
+                if isinstance(st, ast.If) and any(isinstance(x, ast.Continue) for x in ast.walk(st)) \
+                        and "rank" not in ast.unparse(st.test):
+                    out.append(ast.unparse(st.test))
+    return out
+
+
 def coq_eff(e):
     return "(%s)" % e if " " in e else e
 
@@ -678,6 +693,15 @@ def correspondence(ctx):
     if rc != 0 or '("TAB", [])' not in flat:
         rep.fail("broken-correspondence", "the effect tables / handlers extracted from simplifier.py differ from the model's (kinds by index in %r): %s"
                  % (KINDS, flat[-300:]), "C15:ast:tables", observed={k: tab[k]["rows"] for k in tab}, theorem="Model/Timeouts.v table, handler_of, transparent")
+    # the model's `checked nparam y i` is the negation of the first `continue` guard of check_results' loop over the functions
+    try:
+        guards = check_results_guards(src)
+    except Exception as e:
+        guards = ["<scan failed: %s>" % e]
+    if guards != ["all_nparam[i] != uniq_nparam[matches[i]]"]:
+        rep.fail("broken-correspondence", "check_results skips functions under %r; the model's `checked` is `all_nparam[i] == uniq_nparam[matches[i]]` only"
+                 % (guards,), "C15:ast:checked-guard", observed=guards, expected=["all_nparam[i] != uniq_nparam[matches[i]]"],
+                 theorem="Model/Timeouts.v checked; C15_check_results_sound, C15_no_nan_on_equal_counts")
     try:
         ast.literal_eval("nan")
         rep.fail("broken-correspondence", "ast.literal_eval('nan') does not raise", "C15:nan-literal", theorem="C15_no_nan_on_equal_counts premise")
@@ -702,6 +726,23 @@ def correspondence(ctx):
             jobs.append((bs, n, "inject", plan, key))
     jobs.append(("core_maths", 5, "inject", {"call": {"max_param": 3, "check_perm": True, "expand_fun": False}, "nth": 0,
                                               "kinds": ["KA", "KB", "KC", "KD"], "j": 0}, "C15:completes:E-reads-unbound-expr"))
+
+    # directed multi-interrupt family: EVERY block of one kind is interrupted right after it executed a statement with a given
+    # state effect (append to the substitution list, store of the sympy object, store of the string), 8 times or every time --
+    # the "same step is slow in every round" scenario, in which a stale entry can survive all rounds and only check_results
+    # stands between it and the library (C15_cut_is_not_skip_refuted / C15_final_library_sound)
+    def after_effect_family(bs, n, budget):
+        for kind in ("KA", "KB", "KC", "KD", "KE"):
+            for eff in ("ESub", "ESym", "EStr"):
+                lines = sorted({ln for ln, e, _ in tab[kind]["rows"] if e == eff})
+                if lines:
+                    jobs.append((bs, n, "inject", {"after_lines": lines, "kinds": [kind], "max": budget}, None))
+    after_effect_family("core_maths", 3, 8)
+    after_effect_family("core_maths", 3, 1000)       # in every round, until the rounds end
+    if not ctx.quick:
+        after_effect_family("core_maths", 4, 8)
+        after_effect_family("core_maths", 4, 1000)
+        after_effect_family("keep_duplicates", 3, 12)
 
     def sample(bs, n, k_all, k_int):
         c = cens.get((bs, n))
